@@ -57,8 +57,59 @@ def _rebind_table():
 
 from . import bufmodels as B
 
-SHADOWS = {"len": S.sym_len, "range": S.sym_range, "isinstance": S.sym_isinstance, "int": S.sym_int,
-           "bytearray": B.sym_bytearray, "memoryview": B.sym_memoryview, "bytes": S.sym_bytes}
+class ShadowType:
+    """Stands in for a builtin TYPE name (int, bytes, bytearray, memoryview) in a kio module: calling it
+    goes to the proxy-aware function; everything else a module may do with the name - `int | None` in an
+    annotation evaluated later, `int.from_bytes`, `bytes.fromhex`, isinstance/issubclass - behaves like the real type."""
+
+    def __init__(self, real, fn, extra=None):
+        self._real, self._fn, self._extra = real, fn, extra or {}
+        S._MODEL_TO_REAL[id(self)] = real
+
+    def __call__(self, *a, **k):
+        return self._fn(*a, **k)
+
+    def __or__(self, other):
+        return self._real | other
+
+    def __ror__(self, other):
+        return other | self._real
+
+    def __getattr__(self, name):
+        if name in self._extra:
+            return self._extra[name]
+        return getattr(self._real, name)
+
+    def __instancecheck__(self, obj):
+        return S.sym_isinstance(obj, self._real)
+
+    def __subclasscheck__(self, cls):
+        return issubclass(cls, self._real)
+
+    def __mro_entries__(self, bases):
+        return (self._real,)
+
+    def __hash__(self):
+        return hash(self._real)
+
+    def __eq__(self, other):
+        return other is self or other is self._real
+
+    def __repr__(self):
+        return repr(self._real)
+
+
+def _int_from_bytes(data, byteorder="big", *, signed=False):
+    if type(data) is S.SymBytes or type(data).__module__ == "kv.bufmodels":
+        return S.int_from_bytes(S.SymBytes.of(data).expanded(), byteorder, signed)
+    return int.from_bytes(data, byteorder, signed=signed)
+
+
+SHADOWS = {"len": S.sym_len, "range": S.sym_range, "isinstance": S.sym_isinstance,
+           "int": ShadowType(int, S.sym_int, {"from_bytes": _int_from_bytes}),
+           "bytearray": ShadowType(bytearray, B.sym_bytearray), "memoryview": ShadowType(memoryview, B.sym_memoryview),
+           "bytes": ShadowType(bytes, S.sym_bytes)}
+NO_SHADOWS = {"kio.records.schema", "kio.static.constants", "kio.serial.errors"}  # pure declarations: nothing to follow there
 
 
 def install(extra_modules=()):
@@ -104,8 +155,9 @@ def install(extra_modules=()):
                             pass
                     elif isinstance(av, types.FunctionType):
                         rep.extend(_rebind_closure(av, tab))
-        for k, f in SHADOWS.items():
-            g[k] = f
+        if name not in NO_SHADOWS:
+            for k, f in SHADOWS.items():
+                g[k] = f
         _installed[name] = rep
     # validate the trusted base against the genuine CPython objects before anything is decided with it
     from . import selftest
